@@ -389,6 +389,7 @@ class Merge(Expr):
                     right_index,
                     self.suffixes,
                     self.indicator,
+                    _broadcast_side=self.broadcast_side,
                 )
 
         if (shuffle_left_on or shuffle_right_on) and (
@@ -668,6 +669,7 @@ class BroadcastJoin(Merge, PartitionsFiltered):
         "suffixes",
         "indicator",
         "_partitions",
+        "_broadcast_side",
     ]
     _defaults = {
         "how": "inner",
@@ -678,7 +680,17 @@ class BroadcastJoin(Merge, PartitionsFiltered):
         "suffixes": ("_x", "_y"),
         "indicator": False,
         "_partitions": None,
+        "_broadcast_side": None,
     }
+
+    @functools.cached_property
+    def broadcast_side(self):
+        # The side was chosen by the abstract Merge; the operands may have been
+        # repartitioned since, so it can't be derived from them again
+        side = self.operand("_broadcast_side")
+        if side is not None:
+            return side
+        return "left" if self.left.npartitions < self.right.npartitions else "right"
 
     def _divisions(self):
         if self.broadcast_side == "left":
